@@ -104,7 +104,7 @@ def make_problem(rs, n, cplx, gk, kind):
     if gk == "l1":
         lam = 0.5
         xs[rs.rand(n) < 0.5] = 0
-        s = np.where(xs != 0, xs / np.maximum(np.abs(xs), 1e-300), (rs.uniform(-0.9, 0.9, n) + (1j * 0 if not cplx else 0)))
+        s = np.where(xs != 0, xs / np.maximum(np.abs(xs), 1e-300), rs.uniform(-0.9, 0.9, n))
         r = -lam * np.linalg.solve(A.conj().T, s)         # A^H (A x* - y) + lam s = 0
     elif gk == "l2":
         lam = 0.7
